@@ -2249,6 +2249,11 @@ class RedunBackendDb(RedunBackend):
             return value, True
         except InvalidValueError:
             return None, False
+        except Exception:
+            # Unpickling can raise nearly anything, e.g. TypeError for an exception class whose
+            # `__init__` does not accept `self.args`. A recorded value that cannot be rebuilt
+            # is unavailable (a cache miss), like a value whose module has gone missing.
+            return None, False
 
     def _get_value_data(self, value_row: Value) -> tuple[bytes, bool]:
         """
